@@ -43,7 +43,7 @@ def describe(tier):
     return {
         'rule': 'E1: every circuit of F(n>=1,k,A) x output policy x block placement (no block; one block over every '
         'non-empty subset of gate nodes; with nblocks=2 every ordered pair of such blocks) -> into_bench(), and '
-        'into_graphviz_digraph(as_bench=True) once per circuit. KO family = constants carrying 1-2 operands. '
+        'into_graphviz_digraph(as_bench=True) once per circuit; for last-gate outputs without blocks a second conversion after removing and re-adding the rewritten sink gate. KO family = constants carrying 1-2 operands. '
         'distinct = distinct (types before, helper gates added) outcomes.',
         'bounds': {
             'quick': 'F(1,<=2,FULL), F(2,1,FULL) all policies + block pairs; F(2,2,FULL), F(3,1,FULL), F(2,2,KO) core '
@@ -130,6 +130,38 @@ def check_one(n, gates, outs, blocks, acc, ref=None):
         if [g for g in bg if g in net.gates] != list(blocks[i]):
             acc.violation('into_bench/block-members-lost', case, f'{name}: {bg}')
     acc.outcome('conv', (tuple(sorted({t for t, _ in gates})), len(new)))
+    if not blocks and outs == (n + len(gates) - 1,):
+        _reconvert(n, gates, outs, acc, c, net, ref, case)
+
+
+def _reconvert(n, gates, outs, acc, c, net, ref, case):
+    """Multi-step use: convert, remove a rewritten sink gate, add it again as it was, convert again."""
+    from cirbo.core.circuit import gate as G
+
+    labs = space.labels(n, len(gates))
+    last = labs[-1]
+    t, ops = net.gates[last]
+    if t in BENCH_TYPES:
+        return
+    acc.transitions += 1
+    try:
+        c.set_outputs([])
+        c.remove_gate(last)
+        c.emplace_gate(last, getattr(G, t), tuple(ops))
+        c.set_outputs([last])
+        c.into_bench()
+    except Exception as e:  # noqa: BLE001
+        acc.violation(f'into_bench/second-conversion-raises-{type(e).__name__}', case, repr(e))
+        return
+    probs = refmodel.wellformed(c)
+    if probs:
+        acc.violation('into_bench/second-conversion-ill-formed', case, probs[:3])
+        return
+    rnet = refmodel.abstract(c)
+    if {tt for tt, _ in rnet.gates.values()} - BENCH_TYPES:
+        acc.violation('into_bench/second-conversion-leaves-non-bench-type', case, '')
+    if rnet.tables()[last] != ref[last]:
+        acc.violation('into_bench/second-conversion-changes-function', case, '')
 
 
 def check_graphviz(n, gates, outs, acc):
